@@ -8,61 +8,13 @@
    the named premise [line_reads]. *)
 From Coq Require Import List ZArith Bool Lia.
 From RtoscV Require Import Pretty.Tok Pretty.FloatFmt Pretty.PrintModel Pretty.ScanModel
-  Pretty.PrettyProofs Pretty.RangeProofs Pretty.RunProofs Pretty.ListProofs.
-From RtoscV Require Import Save.PrintStage.
+  Pretty.PrettyProofs Pretty.RangeProofs Pretty.RunProofs Pretty.ListProofs Pretty.ArrayProofs.
+From RtoscV Require Import Save.PrintStage Save.PrintTotal.
 From RtoscV Require Import Save.TopoModel Save.SaveModel.
 Import ListNotations.
 Local Open Scope Z_scope.
 
-(* ---- a line as the printer's input ------------------------------------------------------ *)
-Definition av_of (x : scalar) : av :=
-  match x with
-  | SaveModel.VI z => Tok.VI z | SaveModel.VC z => Tok.VC z | SaveModel.VF b => Tok.VFl b
-  | SaveModel.VT true => Tok.VT | SaveModel.VT false => Tok.VF
-  | SaveModel.VS s => Tok.VS s | SaveModel.VSym s => Tok.VSym s
-  end.
-Definition scalar_of (v : av) : option scalar :=
-  match v with
-  | Tok.VI z => Some (SaveModel.VI z) | Tok.VC z => Some (SaveModel.VC z) | Tok.VFl b => Some (SaveModel.VF b)
-  | Tok.VT => Some (SaveModel.VT true) | Tok.VF => Some (SaveModel.VT false)
-  | Tok.VS s => Some (SaveModel.VS s) | Tok.VSym s => Some (SaveModel.VSym s)
-  | _ => None
-  end.
-
-(* an array line carries the 'a' header in front of its elements (element type: that
-   of the first element, as get_changed_values sets it) *)
-Definition line_avs (l : line) : list av :=
-  let es := map av_of (l_vals l) in
-  if l_array l then Tok.VArr (match es with e :: _ => av_type e | [] => 105 end) (Z.of_nat (length es)) :: es
-  else es.
-
-Fixpoint map_opt' {A B} (f : A -> option B) (l : list A) : option (list B) :=
-  match l with
-  | [] => Some []
-  | x :: r => match f x, map_opt' f r with Some y, Some ys => Some (y :: ys) | _, _ => None end
-  end.
-
-(* what the loader makes of the scanned slots: ranges and repetitions written out
-   (C10's expand), an 'a' header in front means an array line *)
-Definition line_of_slots (addr : list Z) (slots : list av) : option line :=
-  match slots with
-  | Tok.VArr _ _ :: es =>
-      match expand es with
-      | Some vs => match map_opt' scalar_of vs with
-                   | Some xs => Some {| l_path := addr; l_array := true; l_vals := xs |}
-                   | None => None
-                   end
-      | None => None
-      end
-  | _ =>
-      match expand slots with
-      | Some vs => match map_opt' scalar_of vs with
-                   | Some xs => Some {| l_path := addr; l_array := false; l_vals := xs |}
-                   | None => None
-                   end
-      | None => None
-      end
-  end.
+From RtoscV Require Export Save.LinesModel.
 
 Lemma scalar_of_av : forall x, scalar_of (av_of x) = Some x.
 Proof. intros [z|z|b|[|]|s|s]; reflexivity. Qed.
@@ -73,49 +25,9 @@ Proof. induction vs as [|x vs IH]; [reflexivity|]. cbn. rewrite scalar_of_av, IH
 Section Body.
 Variables dec2f dec2d : list Z -> Z.
 Variable o : popts.
-
-(* save_to_file's body: every line printed (rtosc_print_message's text), a line feed behind it *)
-Definition print_line (l : line) : option (list Z) :=
-  match print_message o (l_path l) (line_avs l) 0 with
-  | Some (t, _) => Some (t ++ [10])
-  | None => None
-  end.
-Fixpoint print_body (ls : list line) : option (list Z) :=
-  match ls with
-  | [] => Some []
-  | l :: r => match print_line l, print_body r with
-              | Some t, Some b => Some (t ++ b)
-              | _, _ => None
-              end
-  end.
-
-(* the first loop of dispatch_printed_messages:
-     while( *msg_ptr && ok) { nargs = rtosc_count_printed_arg_vals_of_msg(msg_ptr);
-       if(nargs >= 0) { rd = rtosc_scan_message(...); msg_ptr += rd; }
-       else if(nargs == INT_MIN) while( *++msg_ptr) ;        -- white space only
-       else ok = false; }                                                        *)
-Fixpoint scan_body (fuel : nat) (txt : list Z) : list item :=
-  match fuel with
-  | O => [Junk]
-  | S f =>
-      match txt with
-      | [] => []
-      | _ =>
-          match count_printed_arg_vals_of_msg dec2f dec2d txt with
-          | Ok (true, n) =>
-              match scan_message dec2f dec2d txt n with
-              | Ok (addr, slots, r) =>
-                  match line_of_slots addr slots with
-                  | Some l => Msg l (len txt - len r) :: scan_body f r
-                  | None => [Junk]
-                  end
-              | _ => [Junk]
-              end
-          | Ok (false, n) => if n =? 2 ^ 31 then [] else [Junk]
-          | _ => [Junk]
-          end
-      end
-  end.
+Local Notation scan_body := (LinesModel.scan_body dec2f dec2d).
+Local Notation print_line := (LinesModel.print_line o).
+Local Notation print_body := (LinesModel.print_body o).
 
 Lemma scan_body_step : forall f txt, txt <> [] ->
   scan_body (S f) txt =
@@ -174,6 +86,158 @@ Proof.
   destruct slots as [|[] ?]; try contradiction; rewrite Hex, map_opt_av; destruct l; cbn in *; subst; reflexivity.
 Qed.
 
+(* ---- stage 6: the lines of every parameter kind ------------------------------------------------
+   A scalar port's line carries ONE value.  Fewer than five values are never compressed and no
+   range tail can follow, so C10's token theorems apply as they are: *)
+Definition good_scalar1 (x : scalar) : Prop :=
+  match x with
+  | SaveModel.VI z => - 2 ^ 31 <= z < 2 ^ 31
+  | SaveModel.VC z => 0 <= z <= 255
+  | SaveModel.VF b => 0 <= b < 2 ^ 32 /\ f32_finite b = true          (* no NaN, no infinity; both zeroes *)
+  | SaveModel.VT _ => True
+  | SaveModel.VS s => nonul s
+  | SaveModel.VSym s => sym_plain s = true \/ nonul s                  (* printed bare / in quotes *)
+  end.
+(* the elements of a "name#N" port's line, "[e1 e2 ...]": runs are compressed, so C10's list-level
+   conditions apply - no '.' in a quoted symbol (finding ellipsis-in-string-before-range) - and for the
+   line as a whole: +0.0 and -0.0 not both (finding signed-zero-run), one element type *)
+Definition good_elem (x : scalar) : Prop :=
+  match x with
+  | SaveModel.VI z => - 2 ^ 31 <= z < 2 ^ 31
+  | SaveModel.VC z => 0 <= z <= 255 /\ z <> 46
+  | SaveModel.VF b => 0 <= b < 2 ^ 32 /\ f32_finite b = true
+  | SaveModel.VT _ => True
+  | SaveModel.VS s => nonul s /\ nodot s
+  | SaveModel.VSym s => sym_plain s = true \/ (nonul s /\ nodot s)
+  end.
+
+Lemma av_of_good1 : forall x, lossless o = true -> good_scalar1 x -> good1 o (av_of x).
+Proof.
+  intros [z|z|b|[|]|s|s] Hl H; cbn [good_scalar1 av_of] in *.
+  - left. exact H.
+  - left. exact H.
+  - right. right. split; [exact Hl | exact H].
+  - left. exact I.
+  - left. exact I.
+  - left. exact H.
+  - destruct (sym_plain s) eqn:E; [right; left; exact E|].
+    destruct H as [H|H]; [discriminate|]. left. split; [exact H | exact E].
+Qed.
+
+Lemma av_of_goodv : forall x, lossless o = true -> good_elem x -> goodv o (av_of x).
+Proof.
+  intros [z|z|b|[|]|s|s] Hl H; cbn [good_elem av_of] in *.
+  - left. cbn. unfold small_k, good_k. split; [exact H | exact I].
+  - left. cbn. unfold small_k, good_k. exact H.
+  - right. right. split; [exact Hl | exact H].
+  - left. exact I.
+  - left. exact I.
+  - left. exact H.
+  - destruct (sym_plain s) eqn:E; [right; left; exact E|].
+    destruct H as [H|[H1 H2]]; [discriminate|]. left. cbn. split; [exact H1|]. split; [exact E | exact H2].
+Qed.
+
+Definition good_line (l : line) : Prop :=
+  good_addr (l_path l) /\
+  if l_array l
+  then l_vals l <> [] /\ Forall good_elem (l_vals l) /\ nozmix (map av_of (l_vals l)) /\
+       homog (map av_of (l_vals l)) /\ Z.of_nat (length (l_vals l)) + 1 < 2 ^ 31
+  else exists x, l_vals l = [x] /\ good_scalar1 x.
+
+(* the printer's model is total on one-value lines: every value of the abstract application
+   has a text, and a single value is never handed to the range conversion *)
+Lemma print_scalar_av_of : forall x cols, exists t w c, print_scalar o (av_of x) cols = Some (t, w, c).
+Proof.
+  intros [z|z|b|[|]|s|s] cols; cbn [av_of print_scalar]; try (eexists _, _, _; reflexivity).
+  - destruct (print_string o false s cols) as [t c]. eexists _, _, _; reflexivity.
+  - destruct (print_string o true s cols) as [t c]. eexists _, _, _; reflexivity.
+Qed.
+Lemma scalar_av_of : forall x, PrettyProofs.scalar (av_of x).
+Proof. intros [z|z|b|[|]|s|s]; exact I. Qed.
+
+Theorem scalar_line_prints : forall l x, l_array l = false -> l_vals l = [x] ->
+  exists t w, print_message o (l_path l) (line_avs l) 0 = Some (t, w).
+Proof.
+  intros l x Ha Hv. unfold line_avs. rewrite Ha, Hv. cbn [map].
+  pose proof (scalar_av_of x) as Hs. destruct (print_scalar_av_of x (0 + (len (l_path l) + 1))) as (t & w & c & E).
+  unfold print_message. cbn [length]. cbn [print_vals_loop].
+  change (Z.of_nat 1 <=? 0) with false. cbv iota.
+  replace (convert_to_range o [av_of x] (Z.of_nat 1 - 0)) with CNo by reflexivity.
+  rewrite (print_arg_val_top_scalar o (av_of x) [] _ None true Hs), (print_arg_val_scalar o (av_of x) [] _ None Hs).
+  rewrite E. rewrite (next_arg_offset_scalar (av_of x) [] Hs).
+  destruct (if breaks_itself (av_type (av_of x)) then _ else _) as [[brk_ cols2] awtl2].
+  rewrite orb_false_r, andb_false_r.
+  change (0 + 1 <? Z.of_nat 1) with false. cbv iota.
+  change (Z.of_nat 1 <=? 0 + 1) with true. cbv iota.
+  eexists _, _. reflexivity.
+Qed.
+
+(* C12_good_line_reads: a line of the class reads back whatever follows it; for an array line given
+   that the printer's model returns (scalar lines: scalar_line_prints) *)
+Theorem good_line_reads : forall l,
+  lossless o = true -> good_line l ->
+  (l_array l = true -> exists t w, print_message o (l_path l) (line_avs l) 0 = Some (t, w)) ->
+  line_reads l.
+Proof.
+  intros l Hl [Haddr Hg] Hpr. destruct (l_array l) eqn:Harr.
+  - destruct Hg as (Hne & Hel & Hnz & Hh & Hlen). destruct (Hpr eq_refl) as (t & w & Hp).
+    assert (Eav : line_avs l = VArr (match map av_of (l_vals l) with e :: _ => av_type e | [] => 105 end)
+                                    (Z.of_nat (length (map av_of (l_vals l)))) :: map av_of (l_vals l))
+      by (unfold line_avs; rewrite Harr; reflexivity).
+    rewrite Eav in Hp.
+    assert (Hgv : Forall (goodv o) (map av_of (l_vals l))).
+    { apply Forall_forall. intros v Hv. apply in_map_iff in Hv as (x & <- & Hx).
+      apply av_of_goodv; [exact Hl|]. exact (proj1 (Forall_forall _ _) Hel x Hx). }
+    assert (Hne' : map av_of (l_vals l) <> []) by (destruct (l_vals l); [congruence | discriminate]).
+    assert (Hlen' : Z.of_nat (length (map av_of (l_vals l))) + 1 < 2 ^ 31) by (rewrite map_length; exact Hlen).
+    destruct (array_message_reads_tl_nz dec2f dec2d o _ _ _ t w Haddr Hgv Hnz Hh Hne' Hlen' Hp)
+      as (ty' & slots & Hex & [sfx Hsfx] & Hrd).
+    exists t, w, (VArr ty' (Z.of_nat (length slots)) :: slots). rewrite Eav.
+    split; [exact Hp|].
+    split; [destruct Haddr as [[ar Ea] _]; rewrite Hsfx, Ea; eexists; reflexivity|].
+    split.
+    + unfold line_of_slots. rewrite Hex, map_opt_av. destruct l; cbn in *; subst; reflexivity.
+    + intros tl Htl. replace (Z.of_nat (length (VArr ty' (Z.of_nat (length slots)) :: slots)))
+        with (1 + Z.of_nat (length slots)) by (cbn [length]; lia).
+      exact (Hrd tl Htl).
+  - destruct Hg as (x & Hv & Hx).
+    destruct (scalar_line_prints l x Harr Hv) as (t & w & Hp).
+    assert (Eav : line_avs l = [av_of x]) by (unfold line_avs; rewrite Harr, Hv; reflexivity).
+    rewrite Eav in Hp.
+    destruct (one_message_reads_tl dec2f dec2d o _ _ t w Haddr (av_of_good1 x Hl Hx) Hp) as ([sfx Hsfx] & Hrd).
+    exists t, w, [av_of x]. rewrite Eav. split; [exact Hp|].
+    split; [destruct Haddr as [[ar Ea] _]; rewrite Hsfx, Ea; eexists; reflexivity|].
+    split; [|exact Hrd].
+    unfold line_of_slots.
+    assert (Hexp : expand [av_of x] = Some [av_of x]) by (destruct x as [z|z|b|[|]|s|s]; reflexivity).
+    destruct x as [z|z|b|[|]|s|s]; cbn [av_of] in *; rewrite Hexp; cbn [map_opt' scalar_of];
+      destruct l; cbn in *; subst; reflexivity.
+Qed.
+
+(* the printer's model is total on the lines of the class, compression on or off
+   (Save/PrintTotal.v: the array loop with the range conversion never takes a path the
+   model does not cover) *)
+Theorem good_line_prints : forall l,
+  lossless o = true -> good_line l -> exists t w, print_message o (l_path l) (line_avs l) 0 = Some (t, w).
+Proof.
+  intros l Hl [Haddr Hg]. destruct (l_array l) eqn:Harr.
+  - destruct Hg as (Hne & Hel & Hnz & Hh & Hlen).
+    assert (Hgv : Forall (goodv o) (map av_of (l_vals l))).
+    { apply Forall_forall. intros v Hv. apply in_map_iff in Hv as (x & <- & Hx).
+      apply av_of_goodv; [exact Hl|]. exact (proj1 (Forall_forall _ _) Hel x Hx). }
+    destruct (zero_choice o _ Hgv Hnz) as (zf & zd & Hz & Hgc).
+    unfold line_avs. rewrite Harr.
+    apply (array_message_prints_any o zf zd _ _ (map av_of (l_vals l)) Hz Hgc).
+    rewrite map_length. exact Hlen.
+  - destruct Hg as (x & Hv & _). exact (scalar_line_prints l x Harr Hv).
+Qed.
+
+(* C12_good_line_reads: no premise about the printer is left *)
+Theorem good_line_reads_total : forall l, lossless o = true -> good_line l -> line_reads l.
+Proof.
+  intros l Hl Hg. apply good_line_reads; [exact Hl | exact Hg|]. intros _. exact (good_line_prints l Hl Hg).
+Qed.
+
 (* ---- lines do not interfere ----------------------------------------------------------------- *)
 Lemma print_body_tail : forall ls b, Forall line_reads ls -> print_body ls = Some b -> tail_ok b.
 Proof.
@@ -212,3 +276,76 @@ Proof.
     + apply Hscan. cbn [length] in Hf. lia.
 Qed.
 End Body.
+
+(* ---- the decidable form of the class (evaluated by the tie on every saved line) ---------- *)
+Lemma nonul_b_sound s : nonul_b s = true -> nonul s.
+Proof.
+  unfold nonul_b, nonul. rewrite forallb_forall, Forall_forall. intros H c Hc.
+  specialize (H c Hc). apply negb_true_iff, Z.eqb_neq in H. exact H.
+Qed.
+Lemma nodot_b_sound s : nodot_b s = true -> nodot s.
+Proof.
+  unfold nodot_b, nodot. rewrite forallb_forall, Forall_forall. intros H c Hc.
+  specialize (H c Hc). apply negb_true_iff, Z.eqb_neq in H. exact H.
+Qed.
+Lemma good_addr_b_sound a : good_addr_b a = true -> good_addr a.
+Proof.
+  unfold good_addr_b, good_addr. destruct a as [|c r]; [discriminate|].
+  destruct (Z.eq_dec c 47) as [->|Hn].
+  - intros H. split; [eexists; reflexivity|]. rewrite forallb_forall in H. apply Forall_forall.
+    intros x Hx. specialize (H x Hx). now apply negb_true_iff in H.
+  - destruct c as [|p|p]; try discriminate. repeat (destruct p as [p|p|]; try discriminate). congruence.
+Qed.
+Lemma good_scalar1_b_sound x : good_scalar1_b x = true -> good_scalar1 x.
+Proof.
+  destruct x as [z|z|b|t|s|s]; cbn [good_scalar1_b good_scalar1]; intros H.
+  - lia.
+  - lia.
+  - apply andb_true_iff in H as [H Hf]. split; [lia | exact Hf].
+  - exact I.
+  - now apply nonul_b_sound.
+  - apply orb_true_iff in H as [H|H]; [now left | right; now apply nonul_b_sound].
+Qed.
+Lemma good_elem_b_sound x : good_elem_b x = true -> good_elem x.
+Proof.
+  destruct x as [z|z|b|t|s|s]; cbn [good_elem_b good_elem]; intros H.
+  - lia.
+  - lia.
+  - apply andb_true_iff in H as [H Hf]. split; [lia | exact Hf].
+  - exact I.
+  - apply andb_true_iff in H as [H1 H2]. split; [now apply nonul_b_sound | now apply nodot_b_sound].
+  - apply orb_true_iff in H as [H|H]; [now left | right].
+    apply andb_true_iff in H as [H1 H2]. split; [now apply nonul_b_sound | now apply nodot_b_sound].
+Qed.
+Lemma in_fzero z xs : In (VFl z) (map av_of xs) -> existsb (is_fzero z) xs = true.
+Proof.
+  intros H. apply in_map_iff in H as (x & E & Hx). apply existsb_exists. exists x. split; [exact Hx|].
+  destruct x as [a|a|b|[|]|s|s]; cbn [av_of] in E; try discriminate. inversion E; subst. cbn. apply Z.eqb_refl.
+Qed.
+Lemma nozmix_b_sound xs : nozmix_b xs = true -> nozmix (map av_of xs).
+Proof.
+  unfold nozmix_b, nozmix. intros H. split.
+  - apply orb_true_iff in H as [H|H]; [left|right]; intros Hin; apply in_fzero in Hin; rewrite Hin in H; discriminate.
+  - left. intros Hin. apply in_map_iff in Hin as (x & E & _). destruct x as [a|a|b|[|]|s|s]; discriminate.
+Qed.
+Lemma types_match_trans a b c : types_match a b = true -> types_match a c = true -> types_match b c = true.
+Proof. unfold types_match. intros H1 H2. lia. Qed.
+Lemma homog_b_sound xs : homog_b xs = true -> homog (map av_of xs).
+Proof.
+  unfold homog_b, homog. destruct xs as [|x0 r]; [intros _ a b []|].
+  intros H a b Ha Hb. rewrite forallb_forall in H.
+  apply in_map_iff in Ha as (xa & <- & Ha). apply in_map_iff in Hb as (xb & <- & Hb).
+  exact (types_match_trans _ _ _ (H xa Ha) (H xb Hb)).
+Qed.
+
+Theorem good_line_b_sound : forall l, good_line_b l = true -> good_line l.
+Proof.
+  intros l H. unfold good_line_b in H. apply andb_true_iff in H as [Ha H]. split; [now apply good_addr_b_sound|].
+  destruct (l_array l).
+  - apply andb_true_iff in H as [H H5]. apply andb_true_iff in H as [H H4]. apply andb_true_iff in H as [H H3].
+    apply andb_true_iff in H as [H1 H2].
+    split; [destruct (l_vals l); discriminate|].
+    split; [apply Forall_forall; intros x Hx; apply good_elem_b_sound; rewrite forallb_forall in H2; now apply H2|].
+    split; [now apply nozmix_b_sound|]. split; [now apply homog_b_sound | lia].
+  - destruct (l_vals l) as [|x [|y r]]; try discriminate. exists x. split; [reflexivity | now apply good_scalar1_b_sound].
+Qed.
